@@ -34,7 +34,10 @@ func (e *Engine) Probe(realm string) (elapsed time.Duration, err error) {
 	c, r := transport.LinkedPeers()
 	attachErr := make(chan error, 1)
 	go func() { attachErr <- e.R.Attach(r) }()
-	const patience = 5 * time.Minute // virtual; only passes if nothing else can run
+	patience := 5 * time.Minute // virtual; only passes if nothing else can run
+	if e.Realtime {
+		patience = 4 * time.Second
+	}
 	send := func(m wamp.Message) error {
 		t := time.NewTimer(patience)
 		defer t.Stop()
